@@ -99,11 +99,25 @@ SUBJ_G = PRIO_G.replace("p = priority, sub, obj, act, eft", "p = sub, obj, act, 
 # ------------------------------------------------------------------ ordered reloads (priority / subject-priority models)
 # The ordering step of load_policy inside the Lean model (Model/LoadOrd.lean `loadOrd`, driver family `enfo`).
 
+SUBJDOM_G = """[request_definition]
+r = sub, obj, dom, act
+[policy_definition]
+p = sub, obj, dom, act, eft
+[role_definition]
+g = _, _, _
+[policy_effect]
+e = subjectPriority(p_eft) || deny
+[matchers]
+m = g(r.sub, p.sub, r.dom) && r.dom == p.dom && r.obj == p.obj && r.act == p.act
+"""
 ec.TEXT["prio"] = PRIO_G
 ec.TEXT["subj"] = SUBJ_G
+ec.TEXT["subjdom"] = SUBJDOM_G  # examples/subject_priority_model_with_domain.conf
 ec.COUNTS["prio"] = (2, 0)
 ec.COUNTS["subj"] = (2, 0)
-ORD_SHAPES = ("prio", "subj")
+ec.COUNTS["subjdom"] = (3, 0)
+ORD_SHAPES = ("prio", "subj", "subjdom")
+DOM_IDX = {"prio": None, "subj": None, "subjdom": 2}
 ORD_SUBS = ["alice", "bob", "admin", "root"]
 
 
@@ -113,14 +127,29 @@ class OrdConfig(ec.Config):
 
     def __init__(self, shape, initial, is_async=False):
         super().__init__(shape, adapter=True, watcher=None, initial=initial, is_async=is_async)
-        self.requests = [[s, o, "read"] for s in ORD_SUBS for o in ("data1", "data2")]
+        if shape == "subjdom":
+            self.requests = [[s, o, d, "read"] for s in ORD_SUBS for o, d in (("data1", "d1"), ("data2", "d2"), ("data1", "d2"))]
+        else:
+            self.requests = [[s, o, "read"] for s in ORD_SUBS for o in ("data1", "data2")]
 
     def init_line(self):
         return "\t".join(["initord", self.shape, "T", ec.enc_rules(self.initial.get("p", [])), ec.enc_rules(self.initial.get("g", []))])
 
 
+def ord_query_set(cfg):
+    """decisions + role queries (with the two domains for the domain model)"""
+    import types
+
+    return ec.query_set(types.SimpleNamespace(requests=cfg.requests, shape="dom" if cfg.shape == "subjdom" else cfg.shape, noq=False))
+
+
 def ord_universe(shape):
     G = [["alice", "admin"], ["bob", "admin"], ["admin", "root"]]
+    if shape == "subjdom":
+        G = [["alice", "admin", "d1"], ["bob", "admin", "d2"], ["admin", "root", "d1"]]
+        P = [["root", "data1", "d1", "read", "deny"], ["admin", "data1", "d1", "read", "allow"], ["alice", "data1", "d1", "read", "deny"],
+             ["admin", "data2", "d2", "read", "allow"], ["bob", "data2", "d2", "read", "deny"], ["alice", "data2", "d2", "read", "allow"]]
+        return P, G
     if shape == "prio":
         P = [["10", "admin", "data1", "read", "deny"], ["1", "alice", "data1", "read", "allow"], ["2", "bob", "data2", "read", "deny"],
              ["10", "root", "data2", "read", "allow"], ["2", "alice", "data2", "read", "allow"], ["1", "bob", "data1", "read", "deny"]]
@@ -148,15 +177,15 @@ def ord_ops(shape):
     ops = []
     for r in G:
         ops += [("add", "g", r), ("remove", "g", r)]
-    ops += [("add", "g", ["bob", "root"]), ("remove", "p", P[0]), ("remove", "p", P[1]), ("removemany", "p", [P[2], P[3]]), ("removefiltered", "p", OFF[shape], ["alice"]),
+    ops += [("add", "g", ["bob", "root"] + G[0][2:]), ("remove", "p", P[0]), ("remove", "p", P[1]), ("removemany", "p", [P[2], P[3]]), ("removefiltered", "p", OFF[shape], ["alice"]),
             ("removefiltered", "g", 1, ["admin"]), ("removemany", "g", [G[0], G[1]]), ("addmany", "g", [G[0], G[2]]), ("save",), ("load", None), ("build",), ("clear",),
             ("delete_roles_for_user", "alice"), ("removeread", "g")]
-    if shape == "subj":
-        ops += [("add", "p", P[0]), ("add", "p", ["bob", "data2", "read", "allow"]), ("addmany", "p", [P[1], P[2]])]
+    if shape != "prio":
+        ops += [("add", "p", P[0]), ("add", "p", ["bob"] + P[3][1:-1] + ["allow"]), ("addmany", "p", [P[1], P[2]])]
     return ops
 
 
-OFF = {"prio": 1, "subj": 0}
+OFF = {"prio": 1, "subj": 0, "subjdom": 0}
 
 
 def ord_stores(shape, rng, deep):
@@ -187,6 +216,26 @@ def ord_stores(shape, rng, deep):
         # ordering fine, linking fails (rollback relink)
         for pos in range(len(G) + 1):
             out.append(("short-g@%d" % pos, {"p": P[::-1], "g": G[:pos] + [shortg] + G[pos:]}))
+    elif shape == "subjdom":
+        out.append(("fine", {"p": P[::-1], "g": G + [["admin", "alice", "d2"]]}))  # the reverse assignment in ANOTHER domain is no cycle
+        out.append(("fine", {"p": P + [["nobody", "data1", "d1", "read", "allow"]], "g": [["alice", "bob", "d1"], ["bob", "admin", "d1"], ["admin", "root", "d1"]]}))
+        cyc = [[["admin", "alice", "d1"]], [["root", "alice", "d1"]], [["bob", "bob", "d2"]], [["alice", "bob", "d2"], ["bob", "alice", "d2"]]]
+        if not deep:
+            cyc = [cyc[0], cyc[rng.choice([1, 2, 3])]]
+        for extra in cyc:
+            for pos in range(len(G) + 1):
+                out.append(("cycle@%d" % pos, {"p": P, "g": G[:pos] + extra + G[pos:]}))
+        for sg in (shortg, []):
+            for pos in range(len(G) + 1):
+                out.append(("short-g@%d" % pos, {"p": P, "g": G[:pos] + [sg] + G[pos:]}))
+        # two fields: fine for the hierarchy (default domain), too short for the role definition -> fails while LINKING (rollback)
+        for pos in range(len(G) + 1):
+            out.append(("short-g-link@%d" % pos, {"p": P[::-1], "g": G[:pos] + [["bob", "admin"]] + G[pos:]}))
+        for bad in ([], ["alice", "data1"]):  # no subject / no domain field
+            for pos in range(len(base) + 1):
+                out.append(("bad-p@%d" % pos, {"p": base[:pos] + [bad] + base[pos:], "g": G}))
+        out.append(("cycle+short-g", {"p": P, "g": [["admin", "alice", "d1"], shortg] + G}))
+        out.append(("cycle+bad-p", {"p": [P[0], ["alice"]], "g": [["admin", "alice", "d1"]] + G}))
     else:
         out.append(("fine", {"p": P, "g": [["alice", "admin", "d1"], ["admin", "root", "d1"], ["bob", "admin"]]}))  # a third field is read as a domain
         out.append(("fine", {"p": P + [["nobody", "data1", "read", "allow"]], "g": [["alice", "bob"], ["bob", "admin"], ["admin", "root"]]}))
@@ -221,7 +270,8 @@ def ord_expected(shape, store):
         if not any(dig):
             return sorted(p, key=lambda r: r[0])
         return None
-    if any(len(r) < 2 for r in g) or any(len(r) < 1 for r in p):
+    di = DOM_IDX[shape]
+    if any(len(r) < 2 for r in g) or any(len(r) < (1 if di is None else di + 1) for r in p):
         return None
     edges = [((r[2] if len(r) != 2 else "") + "::" + r[0], (r[2] if len(r) != 2 else "") + "::" + r[1]) for r in g]
     nodes = {x for e in edges for x in e}
@@ -238,7 +288,7 @@ def ord_expected(shape, store):
         k += 1
     for x in nodes:
         level[x] = k
-    return sorted(p, key=lambda r: level.get("::" + r[0], 0))
+    return sorted(p, key=lambda r: level.get(("" if di is None else r[di]) + "::" + r[0], 0))
 
 
 def ord_judge_factory():
@@ -258,7 +308,7 @@ def ord_judge_factory():
         if ok and op[0] == "load":
             st = {"p": rec["store"]["p"], "g": rec["store"]["g"]}
             want = ord_expected(cfg.shape, st)
-            short = any(len(r) < 2 for r in st["g"])
+            short = any(len(r) < ec.COUNTS[cfg.shape][0] for r in st["g"])
             if rec["ret"].startswith("!"):
                 if want is not None and not short and op[1] is None:
                     res.violation({"signature": f"C11:{cfg.shape}:ordered:refused", "what": f"{cfg.shape}: load_policy raised {rec['ret']} on a store that orders and links fine {st}", "case": case, "expected": want, "observed": rec["ret"], "model_text": ec.TEXT[cfg.shape]})
@@ -312,8 +362,9 @@ def run_ord_configs(res, jobs, judge, labels=None, procs=12):
     if not jobs:
         return
     lines, metas = [], []
-    qs = ec.query_set(jobs[0][0])
+    qsets = {sh: ord_query_set(OrdConfig(sh, {"p": [], "g": [], "g2": []})) for sh in ORD_SHAPES}
     for cfg, hist in jobs:
+        qs = qsets[cfg.shape]
         ll, idx = ec.lean_history(cfg, hist, qs)
         # after the history: what the ordering step makes of the store, model vs independent spec
         off = len(lines)
@@ -321,7 +372,7 @@ def run_ord_configs(res, jobs, judge, labels=None, procs=12):
         lines.append("q\torder")
         metas.append((off, len(lines), idx))
     answers = common.run_driver("enfo", lines)
-    flat = [(cfg, [h], qs, True, None) for cfg, h in jobs]
+    flat = [(cfg, [h], qsets[cfg.shape], True, None) for cfg, h in jobs]
     if len(jobs) < 64:
         outs = [ec._worker(a) for a in flat]
     else:
@@ -334,7 +385,7 @@ def run_ord_configs(res, jobs, judge, labels=None, procs=12):
         m, s = common.parse_ms(ans[-1])
         if m != s:
             res.model_vs_spec.append({"what": f"ordering step: model {m} vs spec {s}", "history": [list(o) for o in hist]})
-        ec.compare_history(res, cfg, hist, out[0], ans[:-1], idx, qs, judge)
+        ec.compare_history(res, cfg, hist, out[0], ans[:-1], idx, qsets[cfg.shape], judge)
         res.nontrivial.add(hash((cfg.key(), repr(hist))))
         lab = (labels or {}).get(id(hist))
         if lab:
@@ -562,7 +613,7 @@ def replay(obj):
         hist.append(tuple(o))
     r = common.Result()
     j = ord_judge_factory() if ordered else judge_factory()
-    qs = ec.query_set(cfg)
+    qs = ord_query_set(cfg) if ordered else ec.query_set(cfg)
     out = ec.run_history(cfg, hist, qs, fresh_oracle=True)
     for rec in out:
         if ordered:
